@@ -233,10 +233,25 @@ def run(ctx: core.Ctx):
     if not proved and ctx.tier != "thorough":
         ctx.log("proof or T1 did not check: searching for a failing input on ALL engines")
         engines = c16_fexp.ENGINES
+    # corpus: the keys of findings that were repaired (findings/C16-*.json) are called on THEIR engine in every tier,
+    # and first, whatever the rotation selected
+    corpus_keys = set()
+    for k in ctx.known:
+        rp = os.path.join(core.VERIF, k.get("replay", ""))
+        if os.path.isfile(rp):
+            with open(rp) as fh:
+                r = json.load(fh).get("replay", {})
+            corpus_keys.add((r.get("function"), r.get("engine"), r.get("position")))
     by_engine = {e: [] for e in engines}
+    n_corpus = 0
     for i, ent in enumerate(entries):
-        if ent[1] in by_engine:
+        if (ent[0], ent[1], ent[2]) in corpus_keys:
+            by_engine.setdefault(ent[1], []).insert(0, {"id": i, "fname": ent[0], "args": ent[4]})
+            n_corpus += 1
+        elif ent[1] in engines:
             by_engine[ent[1]].append({"id": i, "fname": ent[0], "args": ent[4]})
+    ctx.log(f"corpus: {n_corpus} vectors of {len(corpus_keys)} formerly failing keys run first, on their own engines")
+    engines = [e for e in c16_fexp.ENGINES if e in by_engine]
     real = {}
     with ThreadPoolExecutor(max_workers=8) as ex:
         futs = {e: ex.submit(run_engine, e, by_engine[e]) for e in engines}
@@ -331,6 +346,7 @@ def run(ctx: core.Ctx):
         "rule": "case = (function, engine, tested position, call vector); every case is called for real in both forms "
                 "(name / col(name)) for 2 probe names; non-trivial = the vector has at least one other argument; distinct "
                 "by construction (the table is enumerated, not sampled)",
+        "corpus_keys": len(corpus_keys), "corpus_vectors": n_corpus,
         "entries_in_theorem": len(entries), "entries_called": len(items), "engines_called": engines,
         "histogram_engine": hist_engine, "histogram_variant": hist_variant,
         "histogram_implementation_verdict": hist_real, "histogram_model_verdict": hist_model,
